@@ -139,3 +139,81 @@ package keeper
 //@   returns err
 //@   ensures owner_only: err == nil ==> has(denoms, denomID) && bech(owner) == get(denoms, denomID).Owner
 //@ end
+
+// ---------------------------------------------------------------------------------------------
+// Authority and id generation
+
+//@ define DSEQ = ite(has(denomSeq), get(denomSeq), 1)
+//@ define MSEQ = ite(has(mtSeq), get(mtSeq), 1)
+
+//@ func Keeper.genDenomID
+//@   property C15
+//@   returns id
+//@   requires DSEQ < MAXU64
+//@   bound fewer than 2^64-1 classes: the sequence must not wrap
+//@   modifies denomSeq
+//@   ensures next: has(denomSeq) && get(denomSeq) == old(DSEQ) + 1
+//@   ensures id_of_seq: id == ufstr("sprintf_Bytes", "%x", ufbytes("sha256", bytes(ufstr("sprintf_Int", "mt-denom-%d", old(DSEQ)))))
+//@ end
+
+//@ func Keeper.genMTID
+//@   property C15
+//@   returns id
+//@   requires MSEQ < MAXU64
+//@   bound fewer than 2^64-1 tokens: the sequence must not wrap
+//@   modifies mtSeq
+//@   ensures next: has(mtSeq) && get(mtSeq) == old(MSEQ) + 1
+//@   ensures id_of_seq: id == ufstr("sprintf_Bytes", "%x", ufbytes("sha256", bytes(ufstr("sprintf_Int", "mt-%d", old(MSEQ)))))
+//@ end
+
+//@ func Keeper.TransferDenomOwner
+//@   property C15
+//@   returns err
+//@   requires has(denoms, denomID) ==> get(denoms, denomID).Id == denomID
+//@   modifies denoms
+//@   ensures owner_only: err == nil ==> old(has(denoms, denomID)) && bech(srcOwner) == old(get(denoms, denomID)).Owner
+//@   ensures handed: err == nil ==> denoms == set(old(denoms), denomID, with(old(get(denoms, denomID)), "Owner", bech(dstOwner)))
+//@ end
+
+//@ func msgServer.MintMT
+//@   property C15
+//@   returns resp, err
+//@   requires MSEQ < MAXU64
+//@   requires forall d:Str :: forall t:Str :: inv(d, t) && SUP(d, t) <= MAXU64
+//@   modifies balances, supplies, mts, mtSeq
+//@   ensures owner_only: err == nil ==> has(denoms, msg.DenomId) && msg.Sender == get(denoms, msg.DenomId).Owner
+//@ end
+
+//@ func msgServer.EditMT
+//@   property C15
+//@   returns resp, err
+//@   modifies mts
+//@   ensures owner_only: err == nil ==> has(denoms, msg.DenomId) && msg.Sender == get(denoms, msg.DenomId).Owner
+//@   ensures no_balance_change: balances == old(balances) && supplies == old(supplies)
+//@ end
+
+//@ func msgServer.TransferDenom
+//@   property C15
+//@   returns resp, err
+//@   requires has(denoms, msg.Id) ==> get(denoms, msg.Id).Id == msg.Id
+//@   modifies denoms
+//@   ensures owner_only: err == nil ==> old(has(denoms, msg.Id)) && msg.Sender == old(get(denoms, msg.Id)).Owner
+//@ end
+
+//@ func msgServer.TransferMT
+//@   property C15
+//@   returns resp, err
+//@   requires inv(msg.DenomId, msg.Id) && SUP(msg.DenomId, msg.Id) <= MAXU64
+//@   modifies balances
+//@   ensures held: err == nil ==> old(BAL(addr(msg.Sender), msg.DenomId, msg.Id)) >= msg.Amount
+//@   ensures sum:  err == nil ==> inv(msg.DenomId, msg.Id)
+//@ end
+
+//@ func msgServer.BurnMT
+//@   property C15
+//@   returns resp, err
+//@   requires inv(msg.DenomId, msg.Id)
+//@   modifies balances, supplies
+//@   ensures held: err == nil ==> old(BAL(addr(msg.Sender), msg.DenomId, msg.Id)) >= msg.Amount
+//@   ensures sum:  err == nil ==> inv(msg.DenomId, msg.Id)
+//@ end
